@@ -74,7 +74,12 @@ impl BitmapEvent {
                         if self.data.len() != self.width as usize * self.height as usize * 4 {
                             return Err(Error::RdpError(RdpError::new(RdpErrorKind::InvalidSize, "Invalid size of uncompressed 32 bpp bitmap")))
                         }
-                        self.data
+                        // uncompressed rows are sent bottom-up
+                        let mut result = Vec::with_capacity(self.data.len());
+                        for row in self.data.chunks((self.width as usize * 4).max(1)).rev() {
+                            result.extend_from_slice(row);
+                        }
+                        result
                     }
                 )
             },
